@@ -424,12 +424,12 @@ def same_error(real, exc):
     return real is exc
 
 
-def all_cases():
+def all_cases(tier="quick"):
     for connecting in (0, 1):
         causes = CAUSES_CONNECTING if connecting else CAUSES_CONNECTED
         for pre in ((0,) if connecting else (0, 1)):
             for ri in range(len(READS)):
-                for nw in (0, 1, 2):
+                for nw in ((0, 1, 2) if tier == "quick" else (0, 1, 2, 3)):
                     for cause in causes:
                         for mode in MODES:
                             for di in ((0,) if mode == "none" else (1, 2, 3)):
@@ -458,7 +458,7 @@ def all_cases():
 class C13(Check):
     id = "C13"
     level = "model_checking"
-    rule = ("full product: stream connecting or connected x pre-buffered data x pending read kind (8) x 0-2 "
+    rule = ("full product: stream connecting or connected x pre-buffered data x pending read kind (8) x 0-2 (thorough: 0-3) "
             "writes blocked by EAGAIN x close cause {close(), close(exc_info), EOF, ECONNRESET on read, EIO on "
             "read, EPIPE on write, EIO on write, SO_ERROR on connect} x data {none, partial, satisfying} "
             "arriving before or together with the cause x read issued after the close (10 kinds, incl. delimiter reads with max_bytes the buffer cannot satisfy); also: first queued write "
@@ -493,7 +493,7 @@ class C13(Check):
                         for sig, msg in judge_ssl(o):
                             st.violation(sig, "SSLIOStream (%s side) with the handshake pending, %s, queued write=%r: %s"
                                          % (side, cause, also_write, msg), {"ssl": [side, cause, also_write]})
-        for i, case in enumerate(all_cases()):
+        for i, case in enumerate(all_cases(tier)):
             if i % 32 != part:
                 continue
             try:
